@@ -34,6 +34,12 @@ def realise(d):
         # (lag products that cancel *exactly*: reflection coefficients equal to 0.0 at inner stages)
         x = x.copy()
         x[np.arange(len(x)) % L != 0] = 0
+    ti = d.get("tiny_imag")
+    if ti and np.iscomplexobj(x):
+        # a nearly real complex record: a real signal after an analytic filter with leakage, a mixer almost at zero phase --
+        # the imaginary part is non-zero but 1e-7 .. 1e-5 of the peak modulus (still complex data, every sample of it)
+        r2 = np.random.default_rng(d.get("seed", 0) + 991)
+        x = x.real + 1j * float(ti) * (float(np.max(np.abs(x))) or 1.0) * r2.standard_normal(len(x))
     a = d.get("anchor")
     if a:
         # levels relative to a reference sample (dB re peak, offsets from the first reading): that sample is exactly 0.0
